@@ -106,6 +106,7 @@ Definition pq_footer (bs : list N) : list N :=
 Definition ascii_bytes (s : string) : list Z := map (fun c => Z.of_nat (Ascii.nat_of_ascii c)) (list_ascii_of_string s).
 Definition ipc_kinds : list Z := [0; 1; 2; 10]%Z.
 Definition pq_kinds : list Z := [3; 4; 5; 11]%Z.
+Definition text_kinds : list Z := [7; 8]%Z.
 Definition known_panic_classes : list (string * list Z) := [
   ("arrow-buffer/src/buffer/immutable.rs|the offset of the new Buffer cannot exceed the e", ipc_kinds);
   ("arrow-buffer/src/buffer/boolean.rs|buffer not large enough (bit_offset:", ipc_kinds);
@@ -113,7 +114,18 @@ Definition known_panic_classes : list (string * list Z) := [
   ("arrow-ipc/src/reader.rs|assertion failed: variadic_counts.is_empty()", ipc_kinds);
   ("parquet/src/file/metadata/mod.rs|column start and length should not be negative", pq_kinds);
   ("arrow-buffer/src/util/bit_chunk_iterator.rs|offset + len out of bounds", pq_kinds);
-  ("arrow-data/src/data.rs|integer overflow computing expected number of ex", ipc_kinds)
+  ("arrow-data/src/data.rs|integer overflow computing expected number of ex", ipc_kinds);
+  ("arrow-cast/src/parse.rs|attempt to multiply with overflow", text_kinds);
+  ("bytes-1.12.1/src/bytes.rs|range end out of bounds:", pq_kinds);
+  ("parquet/src/record/triplet.rs|Cannot extract value, max definition level:", pq_kinds);
+  ("arrow-ipc/src/reader.rs|index out of bounds: the len is", ipc_kinds);
+  ("parquet/src/column/reader/decoder.rs|Decoder for dict should have been set", pq_kinds);
+  ("parquet/src/file/serialized_reader.rs|attempt to subtract with overflow", pq_kinds);
+  ("core/src/iter/traits/accum.rs|attempt to add with overflow", pq_kinds);
+  ("parquet/src/encodings/decoding/byte_stream_split_decoder.rs|index out of bounds: the len is", pq_kinds);
+  ("parquet/src/arrow/array_reader/byte_array.rs|attempt to divide by zero", pq_kinds);
+  ("parquet/src/arrow/array_reader/map_array.rs|called `Result::unwrap()` on an `Err` value: Gen", pq_kinds);
+  ("arrow-data/src/data.rs|called `Result::unwrap()` on an `Err` value: Try", ipc_kinds)
 ].
 Fixpoint class_index (k : Z) (cls : list Z) (tbl : list (string * list Z)) (i : Z) : Z :=
   match tbl with
